@@ -68,3 +68,10 @@ def search(ctx):
 
 def replay(ctx, case):
     return replay_eval(ctx, "C07", case)
+
+
+MANIFEST = dict(
+    text='Proof: the rank used by low-rank preparation (rank logic regenerated from the source every run) is the least power of two >= min(r, effective rank) (C07_rank_spec); the overlap of a state with its Schmidt truncation is the sum of the kept squared coefficients for orthonormal factors (C07_overlap_truncated, any field). Tie: translator + execution against low_rank_approximation; direct evaluation of prepared state and fidelity for every bipartition and rank. Optimality (Eckart-Young) is a property of the SVD and is not proved.',
+    note='Modelled, not verified: np.linalg.svd contract; Eckart-Young optimality.',
+    technique='Coq proof (N.log2_up; mathcomp trace algebra) + translator-regenerated rank logic + numpy evaluation',
+    design_ref='DESIGN.md section 4, C07')
